@@ -625,6 +625,17 @@ PART_CONFUSABLE = ([{"raw": x} for x in CONFUSABLE] + [{"raw": hexs(n, 8)} for n
                    + ["x" * 15, "x" * 16, "a", "Z", "7", "#", "é", "ß", "€", 0, 23, -1, -24, 24, "61", "0011", "deadbeef"])
 
 
+# integrated payloads that begin like an envelope (tag 107) without being one: firmware that happens to start with D8 6B,
+# an envelope cut short, a tagged map that lacks the manifest
+_CHILD = ("d86ba2025827815824822f5820fb97d8b98e7d968203700cdeea0d8bbdf22f445d70f1c5901666bc7c2fadd77403582da5010102030341a005824c6b"
+          "494e53544c445f4d465354509ab1d383f2005df78862a29dbc75ad710743820301")          # a complete, valid little envelope
+ENVELOPE_LOOKALIKES = ["d86b", "d86b00", "d86ba0", "d86ba0" + "ab" * 10, "d86ba10241ff", "d86ba1034100", "d86bbf",
+                       _CHILD + "0000",                                                  # a valid envelope followed by more bytes
+                       _CHILD[:-6],                                                      # ... cut short
+                       "d86ba103" + _CHILD[_CHILD.index("03582d") + 2:],                  # manifest only
+                       "d86ba1" + _CHILD[6:_CHILD.index("03582d")]]                       # authentication wrapper only
+
+
 def n_confusable(ch, root):
     where = ch.choose("where", ["content", "key-id", "ciphertext", "recipient-ciphertext", "component-part", "unprotected-kid", "iv",
                                 "cw-id", "signature", "payload"])
@@ -641,7 +652,7 @@ def n_confusable(ch, root):
             return minimal(common={"suit-dependencies": {"0": {"suit-dependency-prefix": cid}}, "suit-components": [["a"]]}), {}
         import json
         return minimal(man={"suit-text": digest()}, env={"suit-text": {"en": {json.dumps(cid): {"suit-text-vendor-name": "v"}}}}), {}
-    v = ch.choose("value", CONFUSABLE)
+    v = ch.choose("value", CONFUSABLE + (ENVELOPE_LOOKALIKES if where == "payload" else []))
     if where == "content":
         return in_params({"suit-parameter-content": v}), {}
     if where == "payload":
